@@ -507,17 +507,42 @@ func reduceEval(args []string) (red influxql.Expr, v1, v2 interface{}, skip bool
 	if touchesRegexMatch(e, b1, b2) {
 		return nil, nil, nil, true, nil
 	}
+	// the expression is evaluated *before* it is handed to Reduce: a Reduce that writes into its
+	// argument must not be able to change the value it is compared with (seeded change C09-2 of round 3)
+	before := encTree(e)
+	ev2 := influxql.ValuerEval{Valuer: influxql.MapValuer(bindingsMap(b1, b2)), IntegerFloatDivision: true}
+	v2 = ev2.Eval(e)
 	red = influxql.Reduce(e, influxql.MapValuer(bindingsMap(b1)))
 	ev1 := influxql.ValuerEval{Valuer: influxql.MapValuer(bindingsMap(b2)), IntegerFloatDivision: true}
 	v1 = ev1.Eval(red)
-	ev2 := influxql.ValuerEval{Valuer: influxql.MapValuer(bindingsMap(b1, b2)), IntegerFloatDivision: true}
-	v2 = ev2.Eval(e)
+	if msg := reduceRepeatable(e, before, red, influxql.MapValuer(bindingsMap(b1))); msg != "" {
+		return red, v1, v2, false, &impureReduce{msg}
+	}
 	return red, v1, v2, false, nil
+}
+
+type impureReduce struct{ msg string }
+
+func (e *impureReduce) Error() string { return e.msg }
+
+// reduceRepeatable: a second Reduce of the same expression under the same valuer gives the same tree as
+// the first, and the expression is what it was before the first call. Both follow from Reduce being a
+// function of (expression, valuer); a folder that accumulates into a node of its argument fails one of them.
+func reduceRepeatable(e influxql.Expr, before string, first influxql.Expr, v influxql.Valuer) string {
+	firstEnc := encTree(first)
+	second := influxql.Reduce(e, v)
+	if encTree(second) != firstEnc {
+		return fmt.Sprintf("Reduce of the same expression gives %s the first time and %s the second time", first.String(), second.String())
+	}
+	if after := encTree(e); after != before {
+		return fmt.Sprintf("Reduce changed the expression it was given (now %s); result %s", e.String(), first.String())
+	}
+	return ""
 }
 
 func implReduceEval(args []string) string {
 	red, v1, v2, skip, err := reduceEval(args)
-	if err != nil {
+	if _, impure := err.(*impureReduce); err != nil && !impure {
 		return "bad-arg"
 	}
 	if skip {
@@ -534,6 +559,9 @@ const minDurClass = "C09-minus-min-duration-wraps"
 // propReduceEval: Eval(Reduce(e, b1), b2) == Eval(e, b1 ∪ b2) on well-typed cases; twice = once.
 func propReduceEval(args []string) string {
 	red, v1, v2, skip, err := reduceEval(args)
+	if imp, ok := err.(*impureReduce); ok {
+		return imp.msg
+	}
 	if err != nil || skip {
 		return "skip"
 	}
@@ -572,7 +600,11 @@ func propIdem(args []string) string {
 	if err != nil {
 		return "skip"
 	}
+	before := encTree(e)
 	once := influxql.Reduce(e, v)
+	if msg := reduceRepeatable(e, before, once, v); msg != "" {
+		return msg
+	}
 	twice := influxql.Reduce(once, v)
 	if encTree(once) != encTree(twice) {
 		return fmt.Sprintf("Reduce twice %s differs from once %s", twice.String(), once.String())
@@ -583,6 +615,9 @@ func propIdem(args []string) string {
 // propIll: totality on arbitrary trees (a panic is reported by the driver), and twice = once.
 func propIll(args []string) string {
 	red, _, _, skip, err := reduceEval(args)
+	if imp, ok := err.(*impureReduce); ok {
+		return imp.msg
+	}
 	if err != nil || skip {
 		return "skip"
 	}
@@ -753,7 +788,11 @@ func propTime(args []string) string {
 	case l.isInt || r.isInt:
 		return "skip"
 	}
+	beforeEnc := encTree(e)
 	got := influxql.Reduce(e, v)
+	if msg := reduceRepeatable(e, beforeEnc, got, v); msg != "" {
+		return msg
+	}
 	var want string
 	switch {
 	case l.isTime && !r.isTime && b.Op == influxql.ADD:
